@@ -1,6 +1,7 @@
 import BoltonsVerif.C01.Proofs
 import BoltonsVerif.C01.ConcreteProofs
 import BoltonsVerif.C01.OwnProofs
+import BoltonsVerif.C01.Natural
 import BoltonsVerif.Generated.C01_Effects
 /-
 C01 — property theorems for the OrderedMultiDict model (statements, short derivations from
@@ -531,6 +532,31 @@ theorem sortedvalues_sorted (s : OMD K V) (h : Inv s) (le : V → V → Bool) (r
   cases rev <;> simpa [flipIf] using hab
 
 
+/-! ## values are opaque; alias forms of keys -/
+
+/-- no operation looks inside a value: relabelling the values of a whole history by ANY function `f`
+    (values handed in, values inside OMD / mapping / pair arguments) relabels every pair list reached
+    and every return value by `f` and changes nothing else - same key order, same lengths, same
+    exceptions, after every prefix -/
+theorem values_are_opaque {W : Type} (f : V → W) (ops : List (HOp K V)) :
+    (hrun (HState.init : HState K W) (ops.map (HOp.mapV f))).map (fun r => (absH r.1, r.2)) =
+      (hrun (HState.init : HState K V) ops).map (fun r => (mapSt f (absH r.1), r.2.mapV f)) := by
+  rw [refines_history]
+  have h := spec_hrun_natural f ops ⟨[], []⟩
+  have e : mapSt f (⟨[], []⟩ : Spec.HState K V) = ⟨[], []⟩ := rfl
+  rw [e] at h
+  rw [h, ← refines_history, List.map_map]
+  rfl
+
+/-- alias forms of keys (`1`, `1.0`, `True` are ONE key): let every pair also carry the key OBJECT it
+    was inserted with (`V := KO × V`).  Forgetting those objects turns the history into the history
+    over `==`-classes of keys that the correspondence runs: which alias object travels with a pair
+    never influences a pair list, a key order, a length, a return value or an exception -/
+theorem alias_objects_do_not_matter {KO : Type} (ops : List (HOp K (KO × V))) :
+    (hrun (HState.init : HState K V) (ops.map (HOp.mapV Prod.snd))).map (fun r => (absH r.1, r.2)) =
+      (hrun (HState.init : HState K (KO × V)) ops).map (fun r => (mapSt Prod.snd (absH r.1), r.2.mapV Prod.snd)) :=
+  values_are_opaque Prod.snd ops
+
 /-! ## list objects: what the dictionary keeps and what the caller holds -/
 
 /-- in every state reached by any history of operations that create, store or hand out list objects
@@ -782,5 +808,11 @@ example : (OMD.fromPairs [(1, 0)] : OMD Nat Nat).eqMappingOld [(3, 0)] (some 0) 
     (OMD.fromPairs [(1, 0)] : OMD Nat Nat).eqMapping [(3, 0)] = .ok false ∧
     ¬ (∀ k, dget k [(3, 0)] = Spec.last k (OMD.fromPairs [(1, 0)] : OMD Nat Nat).cells) :=
   ⟨rfl, rfl, fun h => by have := h 1; simp [dget, Spec.last, Spec.valsOf, OMD.fromPairs, OMD.addAll, OMD.add, OMD.empty, isK] at this⟩
+
+/-- a history whose pairs carry key objects (here: 10 / 11 stand for two alias objects of key 1), and its projection -/
+example : (hrun (HState.init : HState Nat (Nat × Nat)) [.add 1 (10, 5), .add 2 (20, 6), .setitem 1 (11, 7), .poplast none false]).map
+      (fun r => (mapSt Prod.snd (absH r.1)).s) = [[(1, 5)], [(1, 5), (2, 6)], [(2, 6), (1, 7)], [(2, 6)]] ∧
+    (hrun (HState.init : HState Nat Nat) ([HOp.add 1 (10, 5), .add 2 (20, 6), .setitem 1 (11, 7), .poplast none false].map
+      (HOp.mapV Prod.snd))).map (fun r => r.1.s.cells) = [[(1, 5)], [(1, 5), (2, 6)], [(2, 6), (1, 7)], [(2, 6)]] := by decide
 
 end C01
